@@ -154,9 +154,17 @@ def make(rng, cls):
     return {"cls": cls, "elements": list(els), "positions": pos, "chiral": chiral, "continuous_symmetry": cont, "frame": frame}
 
 
-def to_atoms(p, id_base=-1.0, **kw):
+def to_atoms(p, id_base=-1.0, unused_type=False, **kw):
+    """unused_type: the pattern object is what is left of a larger fragment after an atom of another element (one the structure
+    does not contain) was deleted from it - its type table keeps an entry that no atom uses"""
     from mofun import Atoms
     n = len(p["elements"])
+    if unused_type and n >= 1 and not kw:
+        pos = np.array(p["positions"], float)
+        a = Atoms(elements=list(p["elements"]) + ["Fr"], positions=np.vstack([pos, pos.mean(0) + [7.0, 5.0, 3.0]]),
+                  charges=[id_base - i / 64.0 for i in range(n + 1)])
+        del a[[n]]
+        return a
     return Atoms(elements=list(p["elements"]), positions=np.array(p["positions"], float),
                  charges=[id_base - i / 64.0 for i in range(n)], **kw)
 
